@@ -29,6 +29,8 @@ BODIES = {
     "string_rep": "local s = '' while true do s = string.rep('x', 10) end",
     "table_insert": "local t = {} while true do table.insert(t, 1) if #t > 1000 then t = {} end end",
     "preprocess_plain": "while true do frame:preprocess('plain') end",
+    # a loop around an EXPENSIVE host call: few VM instructions per round, most of the time spent outside the VM
+    "preprocess_heavy": "local t = string.rep('{{c07h|A}} ', 8) while true do frame:preprocess(t) end",
     "preprocess_invoke": "while true do frame:preprocess('{{#invoke:c07aux|ok}}') end",
     "after_nested_invoke": "frame:preprocess('{{#invoke:c07aux|ok}}') while true do end",
     "nested_in_parserfn": "frame:preprocess('{{#if:1|{{#invoke:c07aux|slow}}}}') return 'after'",
@@ -60,7 +62,8 @@ QUICK = [("while", "none"), ("while", "pcall"), ("while", "xpcall"), ("while", "
          ("after_nested_invoke", "none"), ("tail_recursion", "pcall"), ("mutual_recursion", "none"), ("clear_hook", "none"),
          ("rearm_hook", "none"), ("clear_hook_in_loop", "pcall"), ("while", "looping_handler"), ("while", "coroutine"),
          ("while", "pcall_then_loop"), ("preprocess_plain", "pcall_in_loop"), ("after_nested_invoke", "pcall"),
-         ("pcall_recursion_in_loop", "none"), ("xpcall_recursion_in_loop", "pcall")]
+         ("pcall_recursion_in_loop", "none"), ("xpcall_recursion_in_loop", "pcall"), ("preprocess_heavy", "none"),
+         ("preprocess_heavy", "pcall_in_loop")]
 
 AUX = """
 local e = {}
@@ -112,6 +115,7 @@ def add_aux(ctx):
     ctx.add_page("Module:c07aux", 828, AUX, model="Scribunto")
     ctx.add_page("Module:utilities", 828, UTILITIES, model="Scribunto")
     ctx.add_page("Module:c07work", 828, WORK, model="Scribunto")
+    ctx.add_page("Template:c07h", 10, "{{#if:{{{1|}}}|[{{{1}}}]|none}}{{#switch:{{{1}}}|A=a|B=b|#default=d}}{{lc:{{{1}}}}}")
 
 
 def module_text(body, wrapper, position):
